@@ -170,6 +170,9 @@ def _halflife_to_int(halflife):
 
 def _times_to_int_array(times):
     times, _ = _convert_timestamp_to_tz_unaware(times)
+    if times.dtype.kind == "M":
+        # the halflife is in nanoseconds, so the timestamps must be too
+        times = times.astype("datetime64[ns]")
     return times.view(np.int64)
 
 
